@@ -196,3 +196,27 @@ Theorem c14_taskset_quiescent_woken_is_scheduled :
     nth i (woken s) false = true -> exists lh, chain (tnext s) (snd (thead s)) lh /\ In i lh.
 Proof. exact ts_quiescent_woken_scheduled. Qed.
 Print Assumptions c14_taskset_quiescent_woken_is_scheduled.
+
+(* the countdown law: only take_scheduled sets the countdown, only a successful push decrements
+   it, and the push that takes it from one to zero calls notify() once - so after the owner has
+   been told that nothing is scheduled (take_scheduled(1) = None) the very next wake-up that gets
+   linked in notifies it *)
+Require Import NX.Proofs.TaskSetNotify.
+Theorem c14_taskset_countdown :
+  forall s l s', tk_step s l = Some s' ->
+    (fst (thead s') = fst (thead s) /\ tnotif s' = tnotif s) \/
+    (exists j w, l = LStep (S j) false /\ nth_error (tkwakers s) j = Some w /\ kpc w = 4 /\ thead s = khd w /\
+       fst (thead s') = fst (thead s) - 1 /\ snd (thead s') = Some (kti w) /\
+       tnotif s' = tnotif s + (if Nat.eqb (fst (thead s)) 1 then 1 else 0)) \/
+    (exists k hd, cph s = CTake k (Some hd) /\ thead s = hd /\ tnotif s' = tnotif s /\
+       thead s' = match snd hd with None => (k, None) | Some _ => (0, None) end).
+Proof. exact tk_step_countdown. Qed.
+Print Assumptions c14_taskset_countdown.
+
+Theorem c14_taskset_armed_push_notifies :
+  forall s j w s',
+    fst (thead s) = 1 -> nth_error (tkwakers s) j = Some w -> kpc w = 4 -> thead s = khd w ->
+    tk_step s (LStep (S j) false) = Some s' ->
+    tnotif s' = S (tnotif s) /\ fst (thead s') = 0 /\ snd (thead s') = Some (kti w).
+Proof. exact tk_armed_push_notifies. Qed.
+Print Assumptions c14_taskset_armed_push_notifies.
